@@ -14,7 +14,7 @@ That following Pmat really ends at the target with the reported length is not de
 """
 import ast
 
-from ..core.astutil import norm, ParentMap
+from ..core.astutil import norm, cn, ParentMap
 from ..core.cfg import CFG
 from ..core.loader import walk_no_nested
 from ..core.pattern import Matcher
@@ -83,10 +83,10 @@ def _floyd(prog, rep):
     rep.ob('F.candidate-is-path-through-k', f, cand[0] if cand else 'i2k_k2j', okc, 'candidate length of (i, j) must be SPL[i,k] + SPL[k,j]')
     stmts = _stmts(f.node)
     p0 = [s for s in stmts if isinstance(s, ast.Assign) and norm(s.targets[0]) == 'Pmat' and s.lineno < lp.lineno]
-    okp0 = len(p0) == 1 and norm(p0[0].value) == 'np.repeat(np.atleast_2d(np.arange(0, n)), n, 0)'
+    okp0 = len(p0) == 1 and norm(p0[0].value) == cn('np.repeat(np.atleast_2d(np.arange(0, n)), n, 0)')
     rep.ob('F.initial-next-hops', f, '; '.join(norm(s) for s in p0), okp0, 'the next hop of a direct connection is the target itself (Pmat[i, j] = j)', line=f.node.lineno)
     post = [norm(s) for s in body if isinstance(s, ast.Assign) and s.lineno > lp.lineno]
-    okd = 'I = np.eye(n) > 0' in post and 'SPL[I] = 0' in post and ('hops[I], Pmat[I] = (0, 0)' in post or 'Pmat[I] = 0' in post)
+    okd = cn('I = np.eye(n) > 0') in post and 'SPL[I] = 0' in post and ('hops[I], Pmat[I] = (0, 0)' in post or 'Pmat[I] = 0' in post)
     rep.ob('F.diagonals-reset', f, '; '.join(post)[:160], okd, 'self-pairs must report length 0 and no next hop', line=f.node.lineno)
     _hop_walk(prog, rep, f, m, lp, hp)
     cfg = CFG(f.node)
@@ -150,7 +150,7 @@ def _hop_walk(prog, rep, f, m, kloop, inloop_hops):
               and any(norm(t).split('[')[0] in ('hops', C, T, M, 'Pmat', 'SPL') for t in (x.targets if isinstance(x, ast.Assign) else [x.target]))]
     rep.ob('F.walk-has-no-other-writes', f, others[0] if others else 'walk loop', not others, 'the walk must not modify the tables in any other way', line=lp_.lineno)
     pre = {norm(s.targets[0]): s for s in stmts if s.lineno < lp_.lineno and s.lineno > kloop.lineno and isinstance(s.targets[0], ast.Name)}
-    okT = T in pre and norm(pre[T].value) == 'np.repeat(np.atleast_2d(np.arange(0, n)), n, 0)'
+    okT = T in pre and norm(pre[T].value) == cn('np.repeat(np.atleast_2d(np.arange(0, n)), n, 0)')
     okC = C in pre and norm(pre[C].value) in ('%s.T.copy()' % T, 'np.repeat(np.atleast_2d(np.arange(0, n)).T, n, 1)')
     okH = 'hops' in pre and norm(pre['hops'].value) in ('np.zeros((n, n))', 'np.zeros((n, n), dtype=float)', 'np.zeros_like(SPL)')
     okM = M in pre and (m.match(pre[M].value, 'np.logical_and(np.isfinite(SPL), %s != %s)' % (C, T)) or m.match(pre[M].value, 'np.logical_and(%s != %s, np.isfinite(SPL))' % (C, T)))
@@ -180,11 +180,15 @@ def _retrieve(prog, rep):
     pl = [x for x in stmts if isinstance(x, ast.Assign) and m.match(x.value, '%s[%s, %s]' % (hops, s_, t_))]
     L = norm(pl[0].targets[0]) if pl else 'path_length'
     rep.ob('R.length-is-reported-hop-count', f, pl[0] if pl else '%s = hops[s, t]' % L, len(pl) == 1, 'the path length must be read from hops[s, t]', line=f.node.lineno)
-    br = [x for x in stmts if isinstance(x, ast.If) and norm(x.test) in ('%s != 0' % L, '%s > 0' % L, '0 != %s' % L)]
+    br = [x for x in stmts if isinstance(x, ast.If) and norm(x.test) in ('%s != 0' % L, cn('%s > 0' % L), '%s == 0' % L)]
     if len(br) != 1:
         rep.ob('R.empty-iff-zero-hops', f, 'if %s != 0' % L, False, 'the empty result must be returned exactly when hops[s, t] == 0', line=f.node.lineno)
         return
     b = br[0]
+    if norm(b.test) == '%s == 0' % L:
+        # canonical spelling puts the positive test first: exchange the arms back
+        b = ast.copy_location(ast.If(test=ast.parse('%s != 0' % L, mode='eval').body, body=b.orelse, orelse=b.body), b)
+        ast.fix_missing_locations(b)
     emp = [norm(x) for x in b.orelse]
     alloc = [x for x in b.body if isinstance(x, ast.Assign) and m.match(x.value, "np.zeros((int(%s + 1), 1), dtype='int')" % L) or
              (isinstance(x, ast.Assign) and m.match(x.value, 'np.zeros((int(%s + 1), 1), dtype=int)' % L))]
@@ -237,7 +241,7 @@ def _navigation(prog, rep):
         t1 = norm(fails[0].test)
         t2 = norm(fails[1].test)
         rep.ob('N.failure-conditions', f, '%s | %s' % (t1, t2), t1 in ('len(neighbors) == 0', 'neighbors.size == 0') and
-               t2 == 'next_node == last_node or (max_hops is not None and pl_bin > max_hops)',
+               t2 == cn('next_node == last_node or (max_hops is not None and pl_bin > max_hops)'),
                'navigation fails on a dead end, on stepping back to the previous node, or beyond max_hops', line=w.lineno)
     # success updates: the three increments use the same (curr_node, next_node) pair, in the top-level of the loop body after the failure tests
     top = [norm(s) for s in w.body if not isinstance(s, ast.If)]
